@@ -4,13 +4,13 @@ package filesystem
 
 // Machine-checked contracts for /verif (gowp). Comment-only file: it adds no code.
 // Interface contract (assumed for every Filespace implementation): a child view is a
-// non-nil object that belongs to the filespace it was taken from.
+// non-nil, newly created object that belongs to the filespace it was taken from.
 
 //@ spec func viewOf(child ref) int
 //@ spec func viewOfTag(child ref) int
 //@ iface github.com/goatcms/goatcore/filesystem.Filespace.Filespace(self, subPath) (child, err)
 //@   modifies $none
-//@   ensures err == nil ==> child != nil && viewOf(payload(child)) == payload(self) && viewOfTag(payload(child)) == tag(self)
+//@   ensures err == nil ==> child != nil && viewOf(payload(child)) == payload(self) && viewOfTag(payload(child)) == tag(self) && fresh(payload(child))
 //@   ensures err != nil ==> child == nil
 //@ iface github.com/goatcms/goatcore/filesystem.Filespace.IsDir(self, subPath) (ok)
 //@   modifies $none
